@@ -262,6 +262,26 @@ twin!(#[fastrace::trace()] async fn adrops_p / adrops_t (a: u32, y: u32) -> u32 
 twin!(#[fastrace::trace()] async fn ainner_p / ainner_t (a: u32, y: u32) -> u32 { here!(); let blk = async { YieldN(y).await; a * 2 }; let f = |x: u32| async move { YieldN(1).await; x + 1 }; let v = blk.await; f(v).await });
 twin!(#[fastrace::trace()] async fn aimpl_p / aimpl_t (a: u32, y: u32, it: impl Iterator<Item = u32>) -> Vec<u32> { here!(); let mut v = Vec::new(); for x in it { YieldN(y.min(1)).await; v.push(x + a); } v });
 twin!(#[fastrace::trace(enter_on_poll = true)] async fn aeop_q_p / aeop_q_t (a: u32, y: u32) -> Result<u32, String> { here!(); YieldN(y).await; if a == 2 { return Err("eop-err".into()); } let r: Result<u32, String> = Ok(a); Ok(r? + 1) });
+// larger shapes: eight arguments and a dozen properties, a long
+// format string, annotated calls nested four deep, a dozen pending polls
+#[allow(clippy::too_many_arguments)]
+fn many_p(a: u32, b: &str, c: u64, d: i8, e: bool, f: char, g: (u8, u8), h: Option<u32>) -> String {
+    here!();
+    log("many");
+    format!("{a}{b}{c}{d}{e}{f}{g:?}{h:?}")
+}
+#[allow(clippy::too_many_arguments)]
+#[fastrace::trace(properties = { "a": "{a}", "b": "{b}", "c": "{c}", "d": "{d}", "e": "{e}", "f": "{f}", "g": "{g:?}", "h": "{h:?}", "a2": "again-{a}", "long": "{a}-{b}-{c}-{d}-{e}-{f}-{g:?}-{h:?}-{a:08x}-{c:>12}-{{literal}}-{b:?}", "k11": "x", "k12": "" })]
+fn many_t(a: u32, b: &str, c: u64, d: i8, e: bool, f: char, g: (u8, u8), h: Option<u32>) -> String {
+    here!();
+    log("many");
+    format!("{a}{b}{c}{d}{e}{f}{g:?}{h:?}")
+}
+twin!(#[fastrace::trace()] fn deep4_nested_p / deep4_nested_t (a: u32) -> u32 { here!(); log("d4"); a + 1 });
+twin!(#[fastrace::trace()] fn deep3_nested_p / deep3_nested_t (a: u32) -> u32 { here!(); log("d3"); deep4_nested_t(a) * 2 });
+twin!(#[fastrace::trace()] fn deep2_nested_p / deep2_nested_t (a: u32) -> u32 { here!(); log("d2"); deep3_nested_t(a) + deep3_nested_t(a + 1) });
+twin!(#[fastrace::trace()] fn deep1_nested_p / deep1_nested_t (a: u32) -> u32 { here!(); log("d1"); deep2_nested_t(a) + 1 });
+
 // bodies that are a single tail `.await`: the awaited expression (its arguments, the call that builds
 // the future) is evaluated inside the function's span like everything else
 async fn add_later(v: u32, y: u32) -> u32 {
@@ -614,6 +634,28 @@ fn cases() -> Vec<Case> {
     sync_case!(c, "G::get", None, no_props, |a| G { t: vec![a] }.get_p(a), G { t: vec![a] }.get_t(a));
     sync_case!(c, "Dflt::dflt", None, no_props, |a| S { v: 4 }.dflt_p(a), S { v: 4 }.dflt_t(a));
     sync_case!(c, "Shelf::snap", None, no_props, |a| Shelf { items: vec![Noisy(1), Noisy(2), Noisy(3)] }.snap_p(a), Shelf { items: vec![Noisy(1), Noisy(2), Noisy(3)] }.snap_t(a));
+    sync_case!(
+        c,
+        "many",
+        None,
+        |a: u32| vec![
+            ("a".to_string(), format!("{a}")),
+            ("b".to_string(), format!("s{a}")),
+            ("c".to_string(), format!("{}", a as u64 + 7)),
+            ("d".to_string(), "-3".to_string()),
+            ("e".to_string(), format!("{}", a == 1)),
+            ("f".to_string(), "é".to_string()),
+            ("g".to_string(), format!("({a}, 2)")),
+            ("h".to_string(), format!("{:?}", Some(a))),
+            ("a2".to_string(), format!("again-{a}")),
+            ("long".to_string(), format!("{a}-s{a}-{}--3-{}-é-({a}, 2)-{:?}-{a:08x}-{:>12}-{{literal}}-{:?}", a as u64 + 7, a == 1, Some(a), a as u64 + 7, format!("s{a}"))),
+            ("k11".to_string(), "x".to_string()),
+            ("k12".to_string(), String::new())
+        ],
+        |a| many_p(a, &format!("s{a}"), a as u64 + 7, -3, a == 1, 'é', (a as u8, 2), Some(a)),
+        many_t(a, &format!("s{a}"), a as u64 + 7, -3, a == 1, 'é', (a as u8, 2), Some(a))
+    );
+    sync_case!(c, "deep1_nested", None, no_props, |a| deep1_nested_p(a), deep1_nested_t(a));
     sync_case!(c, "S::ref", None, no_props, |a| S { v: 10 }.ref_p(a), S { v: 10 }.ref_t(a));
     sync_case!(c, "S::mut", Some("mut_t"), no_props, |a| { let mut s = S { v: 10 }; (s.mut_p(a), s.v) }, { let mut s = S { v: 10 }; (s.mut_t(a), s.v) });
     sync_case!(c, "S::own", Some("consume"), no_props, |a| S { v: 10 }.own_p(a), S { v: 10 }.own_t(a));
@@ -707,6 +749,26 @@ fn cases() -> Vec<Case> {
     async_case!(c, "atail_nested", Some("atail"), no_props, false, |a, y| atail_nested_p(a, y), atail_nested_t(a, y));
     async_case!(c, "atail2_nested", Some("atail2"), no_props, true, |a, y| atail2_nested_p(a, y), atail2_nested_t(a, y));
     async_case!(c, "atail3_nested", Some("atail3"), no_props, false, |a, y| atail3_nested_p(a, y), atail3_nested_t(a, y));
+    // a dozen pending polls
+    for (id, per_poll, which) in [("avalue/12", false, 0u8), ("aeop/12", true, 1), ("adrops/12", false, 2)] {
+        c.push(Case {
+            id: format!("{id}(1,pending=12)"),
+            plain: Box::new(move || match which {
+                0 => { let (v, n) = drive(avalue_p(1, 12)); (d(v), n) }
+                1 => { let (v, n) = drive(aeop_p(1, 12)); (d(v), n) }
+                _ => { let (v, n) = drive(adrops_p(1, 12)); (d(v), n) }
+            }),
+            traced: Box::new(move || match which {
+                0 => { let (v, n) = drive(avalue_t(1, 12)); (d(v), n) }
+                1 => { let (v, n) = drive(aeop_t(1, 12)); (d(v), n) }
+                _ => { let (v, n) = drive(adrops_t(1, 12)); (d(v), n) }
+            }),
+            name: None,
+            props: vec![],
+            per_poll,
+            is_async: true,
+        });
+    }
     // cancellation: a future polled once or twice and then dropped is still one call
     cancel_case!(c, "avalue", None, no_props, false, |a, y| avalue_p(a, y), avalue_t(a, y));
     cancel_case!(c, "adrops", None, no_props, false, |a, y| adrops_p(a, y), adrops_t(a, y));
